@@ -74,7 +74,7 @@ func genRoute() (string, error) {
 	var sb strings.Builder
 	sb.WriteString("import MosnVerif.Model.RouteBase\n")
 	sb.WriteString(header("Route", fRouters, fUtil, fHTTP, fRPC, fVar, "pkg/types"))
-	sb.WriteString("open MosnVerif.Model.Route\n\n")
+	sb.WriteString("open MosnVerif.Model.Route\nset_option linter.unusedVariables false\n\n")
 
 	// ---- constants
 	for _, c := range [][2]string{{"VarHost", "varHost"}, {"VarPath", "varPath"}, {"VarMethod", "varMethod"}, {"RPCRouteMatchKey", "rpcRouteMatchKey"}} {
@@ -295,6 +295,149 @@ func genRoute() (string, error) {
 			return "", fmt.Errorf("RPCRouteRuleImpl.Match: %v", err)
 		}
 		fmt.Fprintf(&sb, "/-- `RPCRouteRuleImpl.Match` -/\ndef rpcMatch (rx : RxOracle) (headers : Str → Option Str) (fastmatch : Str) (configHeaders : List KeyValueData) : Bool :=\n  %s\n\n", body)
+	}
+
+	// ---- constants of the variable rule
+	for _, cst := range [][2]string{{"AND", "modelAnd"}, {"OR", "modelOr"}} {
+		v, err := strConst("pkg/router", cst[0])
+		if err != nil {
+			return "", err
+		}
+		fmt.Fprintf(&sb, "/-- router.%s = %q -/\ndef %s : Str := %s\n\n", cst[0], v, cst[1], leanStr(v))
+	}
+	// ---- VariableRouteRuleImpl.Match
+	{
+		fv, err := parse(fVar)
+		if err != nil {
+			return "", err
+		}
+		fd := findFunc(fv, "VariableRouteRuleImpl", "Match")
+		if fd == nil {
+			return "", fmt.Errorf("VariableRouteRuleImpl.Match not found")
+		}
+		r, ps := recvName(fd), paramNames(fd)
+		if len(ps) != 2 {
+			return "", fmt.Errorf("VariableRouteRuleImpl.Match arity")
+		}
+		c := &CPS{
+			Names: map[string]string{ps[0]: "ctx", r + ".Variables": "variables", "AND": "modelAnd", "OR": "modelOr"},
+			LenFn: map[string]string{r + ".Variables": "listLen"},
+			Types: map[string]string{"result": "Bool", "walkVarName": "Str", "lastMode": "Str", "curStepRes": "Bool"},
+		}
+		c.Calls = map[string]func([]string) string{}
+		ast.Inspect(fd.Body, func(n ast.Node) bool {
+			if rs, ok := n.(*ast.RangeStmt); ok {
+				if id, ok := rs.Value.(*ast.Ident); ok {
+					v := id.Name
+					c.Calls[v+".regexPattern.MatchString"] = func(a []string) string {
+						return "(rxMatch rx " + leanName(v) + ".regexPattern " + a[0] + ")"
+					}
+				}
+			}
+			return true
+		})
+		c.Calls2 = map[string]call2{"variable.GetString": {func(a []string) string { return "(ctx " + a[1] + ")" }, "err"}}
+		c.Ret = retRouteOrNil(r)
+		body, err := c.fn(fd)
+		if err != nil {
+			return "", fmt.Errorf("VariableRouteRuleImpl.Match: %v", err)
+		}
+		fmt.Fprintf(&sb, "/-- `VariableRouteRuleImpl.Match`; the loop-carried variables are threaded through `forRangeS`. A nil item (which `ParseToVariableMatchItem` can return) is outside the model -/\ndef variableMatch (rx : RxOracle) (ctx : Str → Option Str) (variables : List VarItem) : Bool :=\n  %s\n\n", body)
+	}
+	// ---- the two entry loops of a virtual host
+	fvh, err := parse("pkg/router/virtualhost.go")
+	if err != nil {
+		return "", err
+	}
+	for _, k := range []struct{ name, lean, rty, doc string }{
+		{"GetRouteFromEntries", "getRouteFromEntries", "Option ρ", "first rule whose Match returns a route"},
+		{"GetAllRoutesFromEntries", "getAllRoutesFromEntries", "List ρ", "every rule whose Match returns a route, in order"},
+	} {
+		fd := findFunc(fvh, "VirtualHostImpl", k.name)
+		if fd == nil {
+			return "", fmt.Errorf("%s not found", k.name)
+		}
+		r := recvName(fd)
+		c := &CPS{
+			Names: map[string]string{r + ".routes": "routes_"},
+			LenFn: map[string]string{r + ".routes": "listLen"},
+			Types: map[string]string{"routes": "List ρ"},
+		}
+		c.Calls = map[string]func([]string) string{
+			"append": func(a []string) string { return "(" + a[0] + " ++ [" + a[1] + "])" },
+		}
+		ast.Inspect(fd.Body, func(n ast.Node) bool {
+			if rs, ok := n.(*ast.RangeStmt); ok {
+				if id, ok := rs.Value.(*ast.Ident); ok {
+					v := id.Name
+					c.Calls[v+".Match"] = func(a []string) string { return "(matchFn " + leanName(v) + ")" }
+				}
+			}
+			return true
+		})
+		isList := k.rty == "List ρ"
+		c.Ret = func(rs []ast.Expr) (string, error) {
+			if len(rs) != 1 {
+				return "", fmt.Errorf("return arity")
+			}
+			if id, ok := rs[0].(*ast.Ident); ok && id.Name == "nil" {
+				if isList {
+					return "[]", nil
+				}
+				return "none", nil
+			}
+			return c.ex(rs[0])
+		}
+		body, err := c.fn(fd)
+		if err != nil {
+			return "", fmt.Errorf("%s: %v", k.name, err)
+		}
+		if isList {
+			// a matched route `r` (non-nil) is appended as the route itself
+			body = strings.ReplaceAll(body, "(routes ++ [r])", "(routes ++ r.toList)")
+		}
+		fmt.Fprintf(&sb, "/-- `VirtualHostImpl.%s`: %s. `matchFn route` = `route.Match(ctx, headers)` (`none` = nil); the mutex is skipped -/\ndef %s {ρ : Type} (matchFn : ρ → Option ρ) (routes_ : List ρ) : %s :=\n  %s\n\n", k.name, k.doc, k.lean, k.rty, body)
+	}
+	// ---- findVirtualHost
+	{
+		fd := findFunc(fr, "routersImpl", "findVirtualHost")
+		if fd == nil {
+			return "", fmt.Errorf("findVirtualHost not found")
+		}
+		r, ps := recvName(fd), paramNames(fd)
+		if len(ps) != 1 {
+			return "", fmt.Errorf("findVirtualHost arity")
+		}
+		c := &CPS{
+			Names: map[string]string{r: "ri", ps[0]: "ctx", "types.VarHost": "varHost"},
+			LenFn: map[string]string{r + ".virtualHostPortsMap": "mapLen", r + ".portWildcardVirtualHost": "mapLen"},
+			Types: map[string]string{"index": "Int"},
+		}
+		c.Calls = map[string]func([]string) string{
+			"strings.ToLower":                func(a []string) string { return "(lower " + a[0] + ")" },
+			r + ".findHighestPriorityIndex": func(a []string) string { return "(findHighestPriorityIndex ri " + a[0] + " " + a[1] + ")" },
+		}
+		c.Calls2 = map[string]call2{
+			"variable.GetString":    {func(a []string) string { return "(ctx " + a[1] + ")" }, "err"},
+			"splitHostPortGraceful": {func(a []string) string { return "(split " + a[0] + ")" }, "err"},
+		}
+		c.Ret = func(rs []ast.Expr) (string, error) {
+			if len(rs) != 1 {
+				return "", fmt.Errorf("return arity")
+			}
+			if id, ok := rs[0].(*ast.Ident); ok && id.Name == "nil" {
+				return "(-1)", nil
+			}
+			if ie, ok := rs[0].(*ast.IndexExpr); ok && goKey(ie.X) == r+".virtualHosts" {
+				return c.ex(ie.Index)
+			}
+			return "", fmt.Errorf("unsupported return %s", goKey(rs[0]))
+		}
+		body, err := c.fn(fd)
+		if err != nil {
+			return "", fmt.Errorf("findVirtualHost: %v", err)
+		}
+		fmt.Fprintf(&sb, "/-- `routersImpl.findVirtualHost`: index of the returned virtual host, −1 for nil. `split` = `splitHostPortGraceful` -/\ndef findVirtualHost (split : Str → Option (Str × Str)) (ri : Tables) (ctx : Str → Option Str) : Int :=\n  %s\n\n", body)
 	}
 
 	sb.WriteString(footer("Route"))
